@@ -423,10 +423,10 @@ theorem all_correct {G : GCtx} (ok : G.OK) : ∀ fuel, StmtSpec G fuel ∧ StmtL
               hgen hat hr hsz hnl hci
         | ite c t e =>
           simp only [okS4, Bool.and_eq_true] at hok
-          exact execS_ite (KOf G pi sp dep hi) _ wf F c t e σ hok.1.1 (fun s => ihS' t s hok.1.2) (fun s => ihS' e s hok.2)
+          exact execS_ite (KOf G pi sp dep hi) _ wf F c t e σ (condOK_pure _ wf.toWF F c hok.1.1) (fun s => ihS' t s hok.1.2) (fun s => ihS' e s hok.2)
         | «while» c b =>
           simp only [okS4, Bool.and_eq_true] at hok
-          exact execS_while (KOf G pi sp dep hi) _ wf F c b σ hok.1 (fun s => ihS' b s hok.2)
+          exact execS_while (KOf G pi sp dep hi) _ wf F c b σ (condOK_pure _ wf.toWF F c hok.1) (fun s => ihS' b s hok.2)
             (fun s => ihS' (.while c b) s (by simp [okS4, hok.1, hok.2]))
         | seq ss =>
           simp only [okS4] at hok
